@@ -217,10 +217,10 @@ def _alarm(signum, frame):
 RUN_TIMEOUT_S = int(os.environ.get("VERIF_RUN_TIMEOUT_S", "20"))
 
 
-def guarded(fn, *a, **kw):
+def guarded(fn, *a, timeout_s=None, **kw):
     """Run fn under a per-run wall alarm. A timeout is a harness error, never exit 0."""
     old = signal.signal(signal.SIGALRM, _alarm)
-    signal.alarm(RUN_TIMEOUT_S)
+    signal.alarm(timeout_s or RUN_TIMEOUT_S)
     try:
         return fn(*a, **kw)
     finally:
@@ -244,7 +244,8 @@ def worker_chunk(prop, tier, base_seed, lo, hi, want_samples, digests_only=False
     for i in range(lo, hi):
         seed = derive_seed(prop, tier, base_seed, i)
         try:
-            r = guarded(eng.run_one, seed, tier, i)
+            r = guarded(eng.run_one, seed, tier, i,
+                        timeout_s=eng.timeout_for(i, tier) if hasattr(eng, "timeout_for") else None)
         except RunTimeout:
             harness.append({"index": i, "seed": seed, "error": f"run exceeded {RUN_TIMEOUT_S}s wall"})
             if len(harness) >= 2:
@@ -280,7 +281,7 @@ def worker_chunk(prop, tier, base_seed, lo, hi, want_samples, digests_only=False
 
 def replay_trace(prop: str, trace: dict) -> RunResult:
     eng = get_engine(prop)
-    return guarded(eng.replay, trace)
+    return guarded(eng.replay, trace, timeout_s=600 if trace.get("lane") == "endurance" else None)
 
 
 def same_violation(a: Violation | None, b: Violation | None) -> bool:
